@@ -1,6 +1,7 @@
 """C13 - saved stream, joined events and per-region files are byte-exact
 under every explored interleaving."""
 
+import os
 import sys
 
 from hypothesis import strategies as st
@@ -25,7 +26,7 @@ RULE = (
     "each holding its detection. Non-trivial = >= 2 separate writeframes calls, or a cache flush before the stream "
     "ended, or >= 2 joined events."
 )
-MUST_HIT = ["joiner_half_sample_silence", "writer_lagging_3_blocks_at_stop_marker", "cache_flush_mid_stream", "zero_events_with_joiner",
+MUST_HIT = ["files_still_there_after_the_workers_are_gone", "joiner_half_sample_silence", "writer_lagging_3_blocks_at_stop_marker", "cache_flush_mid_stream", "zero_events_with_joiner",
             "region_files", "raw_region_files"]
 ASSUMPTIONS = c12.ASSUMPTIONS
 BOUNDS = {"quick": dict(n=300, maxwin=24), "thorough": dict(n=1500, maxwin=40)}
@@ -56,7 +57,7 @@ def check_case(case, rec):
                 joined = auditok.split_and_join_with_silence(
                     rd, run.join_sil, energy_threshold=run.thr, use_channel=case["audio"].get("uc"),
                     **pipeline.split_kwargs(case))
-                if getattr(run, "joiner_ext", ".wav") == ".raw":
+                if getattr(run, "joiner_ext", ".wav").lower() == ".raw":
                     with open(run.joiner_path, "rb") as fp:
                         frames = fp.read()
                 else:
@@ -81,9 +82,18 @@ def check_case(case, rec):
                     classes.add("writer_lagging_3_blocks_at_stop_marker")
         if run.regsave is not None and exp:
             classes.add("region_files")
-            if case.get("ext") == "raw":
+            if (case.get("ext") or "").lower() == "raw":
                 classes.add("raw_region_files")
-        rec.note(case, nt, classes, out={"detections": len(exp), "blocks": len(run.src.handed),
+        nblocks_ = len(run.src.handed)
+        cwd_ = os.getcwd()
+        try:
+            if case.get("relative"):
+                os.chdir(run.dir)  # (where the relative names given to the workers resolve)
+            c12.judge_after_release(run, case)
+        finally:
+            os.chdir(cwd_)
+        classes.add("files_still_there_after_the_workers_are_gone")
+        rec.note(case, nt, classes, out={"detections": len(exp), "blocks": nblocks_,
                                          "writeframes": len(getattr(run, "wf_calls", []))})
     finally:
         pipeline.cleanup(run)
